@@ -47,7 +47,7 @@ PROOF_UNITS = {
 BOUNDED_PARTS = {
     'C01': ['c01_presence'],
     'C02': ['c02_queries'],
-    'C03': ['c03_canonical'],
+    'C03': ['c03_canonical', 'c03_derived_constructors'],
     'C04': ['c04_snapshots'],
     'C05': ['c05_stream'],
     'C06': ['c06_time_slice'],
@@ -56,7 +56,12 @@ BOUNDED_PARTS = {
     'C09': ['c09_snapshot_roundtrip'],
     'C10': ['c10_interaction_roundtrip'],
     'C11': ['c11_json_roundtrip'],
+    'C12': ['c12_paths_genuine'],
+    'C13': ['c13_paths_complete'],
+    'C14': ['c14_annotate_paths'],
+    'C15': ['c15_temporal_dag'],
     'C16': ['c16_conversions'],
+    'C20': ['c20_conformity'],
     'C18': ['c18_reader_noise_and_compaction'],
     'C17': ['c17_statistics'],
     'C19': ['c19_blocked_and_frozen'],
@@ -70,10 +75,12 @@ LEVELS = {
     'C01': 'other', 'C03': 'other', 'C04': 'other', 'C05': 'other', 'C07': 'other', 'C08': 'other',
     'C02': 'exploration', 'C06': 'exploration', 'C16': 'exploration', 'C17': 'exploration', 'C19': 'other',
     'C09': 'exploration', 'C10': 'exploration', 'C11': 'exploration', 'C18': 'other',
+    'C12': 'exploration', 'C13': 'exploration', 'C14': 'exploration', 'C15': 'exploration', 'C20': 'exploration',
 }
 
-EXPLANATIONS = {
-}
+from .manifest_data import CLAIMS as _CLAIMS
+EXPLANATIONS = {k: v['text'] for k, v in _CLAIMS.items()}
+ASSUMPTIONS = {k: [v['note']] for k, v in _CLAIMS.items()}
 
 TRUSTED_BASE = [
     'pyvc itself: the symbolic executor for the Python subset (DESIGN 1.3), the ownership-typed heap model (1.4), the SMT encoding; z3 5.1 / cvc5',
